@@ -96,7 +96,7 @@ func C07(c *vf.Check) {
 		}
 		c.Add("compiler_runs", int64(run.CompilerRuns))
 	}
-	runOne("opt", tier(c, "3", "4"), "2", 5, srcOpts{Opt: true})
+	runOne("opt", "3", tier(c, "2", "3"), 5, srcOpts{Opt: true})
 	runOne("optx", tier(c, "2", "3"), "2", 4, srcOpts{Opt: true})
 	runOne("expr", tier(c, "2", "3"), "2", 4, srcOpts{})
 	runOne("box", tier(c, "3", "4"), "2", 5, srcOpts{Box: true})
